@@ -28,6 +28,7 @@ import (
 	"os"
 	"runtime"
 	"strconv"
+	"strings"
 	"sync"
 	"testing"
 	"time"
@@ -92,6 +93,8 @@ type tamperConn struct {
 	bounds  []int        // end offset of each message in orig
 	held    []byte       // a message held back (swap)
 	dead    bool
+	framing bool   // handshake done: frame deadlines are no-ops
+	werr    string // a write to the pipe failed (driver trouble, not a verdict)
 }
 
 func (c *tamperConn) apply(b []byte) ([]byte, bool) {
@@ -141,6 +144,28 @@ func (c *tamperConn) Write(b []byte) (int, error) {
 	return len(b), nil
 }
 
+// After the handshake the transport's per-frame deadlines (20 s write, 30 s read) are not applied to the pipe: what is judged is
+// what is delivered, not how fast a loaded machine moves 16 MiB; a reader that waits for bytes is always released by the
+// writer closing its end.  During the handshake deadlines pass through (they are the protocol's answer to a stalled peer).
+func (c *tamperConn) SetDeadline(t time.Time) error {
+	if c.framing {
+		return nil
+	}
+	return c.Conn.SetDeadline(t)
+}
+func (c *tamperConn) SetReadDeadline(t time.Time) error {
+	if c.framing {
+		return nil
+	}
+	return c.Conn.SetReadDeadline(t)
+}
+func (c *tamperConn) SetWriteDeadline(t time.Time) error {
+	if c.framing {
+		return nil
+	}
+	return c.Conn.SetWriteDeadline(t)
+}
+
 func (c *tamperConn) begin() { c.inMsg, c.cur = true, nil; c.msgNo++ }
 func (c *tamperConn) end() error {
 	c.inMsg = false
@@ -155,7 +180,9 @@ func (c *tamperConn) end() error {
 	put := func(b []byte) {
 		c.sent.Write(b)
 		if err == nil {
-			_, err = c.Conn.Write(b)
+			if _, err = c.Conn.Write(b); err != nil && c.werr == "" {
+				c.werr = err.Error()
+			}
 		}
 	}
 	switch {
@@ -312,7 +339,7 @@ func runSession(w *svw, rng *rand.Rand, idx int, tp sTamper, snap bool, sizes []
 	ev := map[string]interface{}{"e": "session", "idx": idx, "snappy": snap, "tamper": tp, "initiatorWrites": initiatorWrites,
 		"hsErrI": es(rI.err), "hsErrR": es(rR.err), "hsPanic": rI.panic + rR.panic, "hsMs": hsMs,
 		"idI": rI.err == nil && rI.id == nodeID(prvR), "idR": rR.err == nil && rR.id == nodeID(prvI),
-		"sent": []sMsg{}, "delivered": []sMsg{}, "err": "", "panic": "", "firstBad": 1, "refused": []int{}, "readMs": 0}
+		"sent": []sMsg{}, "delivered": []sMsg{}, "err": "", "panic": "", "firstBad": 1, "refused": []int{}, "readMs": 0, "pipeErr": "", "wedge": false}
 	if rI.err != nil || rR.err != nil || rI.panic != "" || rR.panic != "" {
 		fdI.Close()
 		fdR.Close()
@@ -324,9 +351,10 @@ func runSession(w *svw, rng *rand.Rand, idx int, tp sTamper, snap bool, sizes []
 		wr, rd, wc = tR, tI, tcR
 	}
 	wr.rw.snappy, rd.rw.snappy = snap, snap
-	// the frames travel with no handshake deadline pending
+	// the frames travel with no deadline pending
 	fdI.SetDeadline(time.Time{})
 	fdR.SetDeadline(time.Time{})
+	tcI.framing, tcR.framing = true, true
 	done := make(chan readResult, 1)
 	rstart := time.Now()
 	go func() {
@@ -352,11 +380,19 @@ func runSession(w *svw, rng *rand.Rand, idx int, tp sTamper, snap bool, sizes []
 		sent = append(sent, sMsg{code, len(p), sdigest(p)})
 	}
 	wc.Conn.Close() // the writer is done: the reader sees EOF after the last byte
-	res := <-done
+	var res readResult
+	wedge := false
+	select {
+	case res = <-done:
+	case <-time.After(15 * time.Minute):
+		wedge, res.msgs = true, []sMsg{}
+	}
 	fdI.Close()
 	fdR.Close()
 	ev["sent"], ev["delivered"], ev["err"], ev["panic"], ev["firstBad"], ev["refused"] = sent, res.msgs, res.err, res.panic, wc.firstBad(), refused
 	ev["readMs"] = time.Since(rstart).Milliseconds()
+	ev["pipeErr"] = wc.werr
+	ev["wedge"] = wedge
 	w.emit(ev)
 }
 
@@ -406,7 +442,8 @@ func runHostileFrames(w *svw, rng *rand.Rand, thorough bool) {
 		if !thorough && i%2 == 1 && c.expect == "error" && len(c.payload) > 1<<20 {
 			continue
 		}
-		fdA, fdV := net.Pipe()
+		fdA0, fdV0 := net.Pipe()
+		fdA, fdV := &tamperConn{Conn: fdA0}, &tamperConn{Conn: fdV0}
 		prvA, prvV := genKey(), genKey()
 		tA, tV := newRLPX(fdA).(*rlpx), newRLPX(fdV).(*rlpx)
 		errc := make(chan error, 1)
@@ -417,6 +454,7 @@ func runHostileFrames(w *svw, rng *rand.Rand, thorough bool) {
 		}
 		fdA.SetDeadline(time.Time{})
 		fdV.SetDeadline(time.Time{})
+		fdA.framing, fdV.framing = true, true
 		tV.rw.snappy = c.snappy
 		tA.rw.snappy = false
 		content := c.payload
@@ -554,7 +592,7 @@ func runHostileHandshakes(w *svw, rng *rand.Rand) {
 		case eofCase[kind] || kind == "auth-sig-v-4" || kind == "ack-random":
 			class = "any" // the verdict may legitimately wait for more bytes (deadline) or depend on what the random bytes recover to
 		}
-		w.emit(map[string]interface{}{"e": "hostile-hs", "kind": kind, "class": class, "victimInitiates": victimInitiates, "err": es, "panic": pn,
+		w.emit(map[string]interface{}{"e": "hostile-hs", "kind": kind, "class": class, "timedOut": strings.Contains(es, "timeout"), "victimInitiates": victimInitiates, "err": es, "panic": pn,
 			"ms": time.Since(start).Milliseconds(), "alloc": ms2.TotalAlloc - ms1.TotalAlloc})
 	}
 	seal := func(msg interface{}, to *ecdsa.PublicKey) []byte {
